@@ -106,10 +106,11 @@ _OPS = {  # DWARF v4 figure 24
 }  # fmt: skip
 
 
-def decode_expr(b, order, ptr):
+def decode_expr(b, order, ptr, spans=None):
+    """``spans`` (optional list) receives the (start, end) byte span of every operation."""
     ops, i = [], 0
     while i < len(b):
-        c = b[i]
+        start, c = i, b[i]
         i += 1
         if 0x30 <= c <= 0x4F:
             ops.append(["lit", c - 0x30])
@@ -126,33 +127,39 @@ def decode_expr(b, order, ptr):
             ops.append(op)
         else:
             raise Malformed(f"unknown DW_OP 0x{c:02x}")
+        if spans is not None:
+            spans.append((start, i))
     return ops
 
 
-def decode_escape(b, order, ptr):
-    """CFA instructions in an escape payload (DWARF v4 6.4.2, figure 40)."""
+def decode_escape(b, order, ptr, spans=None):
+    """CFA instructions in an escape payload (DWARF v4 6.4.2, figure 40).
+    ``spans`` (optional list) receives per instruction (start, end,
+    position of the expression length or None, start of the expression)."""
     out, i = [], 0
 
     def block(i):
-        n, i = _uleb(b, i)
-        raw, i = _take(b, i, n)
-        return decode_expr(list(raw), order, ptr), i
+        n, j = _uleb(b, i)
+        raw, e = _take(b, j, n)
+        return decode_expr(list(raw), order, ptr), e, (i, j)
 
     while i < len(b):
-        c = b[i]
+        start, c, where = i, b[i], (None, None)
         i += 1
         if c == 0x00:
             out.append(("nop",))
         elif c == 0x0F:
-            e, i = block(i)
+            e, i, where = block(i)
             out.append(("def_cfa_expression", e))
         elif c in (0x10, 0x16):
             r, i = _uleb(b, i)
-            e, i = block(i)
+            e, i, where = block(i)
             out.append(("expression" if c == 0x10 else "val_expression", r, e))
         else:  # has an assembly directive of its own; the library documents it does not evaluate these
             out.append(("other", c))
             break
+        if spans is not None:
+            spans.append((start, i) + where)
     return out
 
 
